@@ -4,7 +4,7 @@ Import ListNotations.
 From Exmex.Model Require Import Base EvalBinary Lexer Flat Deep Convert.
 From Exmex.Spec Require Import RefSem.
 From Coq Require Import Sorted.
-From Exmex.Proofs Require Import CompileCorrect FlatPev DeepSem DeepCompile DeepParse C03Main C01Main C01Vars C11Main ConvertMain ToDeep ConvertCompose Accept WalkSim Vars Listings ParseListings LexSpaced LexFlex ParseAny ParseComplete.
+From Exmex.Proofs Require Import CompileCorrect FlatPev DeepSem DeepCompile DeepParse C03Main C01Main C01Vars C11Main ConvertMain ToDeep ConvertCompose Accept WalkSim Vars Listings ParseListings LexSpaced LexFlex ParseAny ParseComplete LexLocal.
 Open Scope nat_scope.
 
 (* 1. The deep parser (recursive descent, one folded sub-expression per parenthesis group and per variable under unary
@@ -92,6 +92,29 @@ Proof.
   { clear. induction l as [|t l IH]; intros gs Hgl; [reflexivity|]. destruct gs as [|g gs]; [discriminate|]. cbn [combine map fst]. f_equal. apply IH. cbn in Hgl. congruence. }
   specialize (Em (flatten c) gaps Hgl).
   pose proof (tokenize_flex C tb is_literal (combine (flatten c) gaps) ltac:(rewrite Em; exact Hlex) Hg) as Htok. rewrite Em in Htok.
+  destruct (C03_deep_token_entry_point D C tb R Hr Hs Ht Hb Hu Ha c vals Hwf Hlen) as (e & v & H1 & H2 & H3 & H4).
+  exists e, v. unfold parse_deep. rewrite Htok. cbn [bind]. repeat split; assumption.
+Qed.
+
+(* ... and on ANY locally readable text (Proofs/LexLocal.v: bare variables, constants, no terminator asked for) *)
+Theorem C03_deep_text_entry_point_locally_readable :
+  forall (D : Type) (C : carrier D) (tb : optable) (is_literal : str -> option nat) (R : D -> D -> Prop),
+  (forall a, R a a) -> (forall a b, R a b -> R b a) -> (forall a b c, R a b -> R b c -> R a c) ->
+  (forall k a a' b b', R a a' -> R b b' -> R (binf C k a b) (binf C k a' b')) ->
+  (forall k a a', R a a' -> R (unf C k a) (unf C k a')) ->
+  (forall o, comm_of tb o = true -> forall a b c, R (binf C o (binf C o a b) c) (binf C o a (binf C o b c))) ->
+  forall (c : chain (D:=D)) (items : list (piece (D:=D) * nat)) (vals : list D),
+  wf_chain tb c = true -> map (ptok C) (map fst items) = flatten c ->
+  all_readable C tb is_literal items [] ->
+  length vals = length (find_parsed_vars (flatten c)) ->
+  exists e v,
+    parse_deep C tb is_literal (ptexts C tb items) = Ok e /\
+    dvars e = find_parsed_vars (flatten c) /\
+    eval_deep C e vals = Ok v /\
+    R v (ref_chain C tb (find_parsed_vars (flatten c)) vals c).
+Proof.
+  intros D C tb is_literal R Hr Hs Ht Hb Hu Ha c items vals Hwf Htoks Hread Hlen.
+  pose proof (tokenize_local C tb is_literal items Hread) as Htok. rewrite Htoks in Htok.
   destruct (C03_deep_token_entry_point D C tb R Hr Hs Ht Hb Hu Ha c vals Hwf Hlen) as (e & v & H1 & H2 & H3 & H4).
   exists e, v. unfold parse_deep. rewrite Htok. cbn [bind]. repeat split; assumption.
 Qed.
@@ -331,3 +354,4 @@ Print Assumptions C03_unfolded_parse_lists_the_operators_of_the_text.
 Print Assumptions C03_folding_only_removes_names_partial.
 Print Assumptions C03_deep_text_entry_point.
 Print Assumptions C03_deep_text_entry_point_free_spacing.
+Print Assumptions C03_deep_text_entry_point_locally_readable.
